@@ -120,6 +120,16 @@ Theorem C18_prescription_deterministic : forall (key : Type) isa (M : list (key 
   resolves key isa M Pf d k r1 -> resolves key isa M Pf d k r2 -> r1 = r2.
 Proof. exact resolves_functional. Qed.
 
+(** the reference resolution reads the method table and the preferences only as sets: the
+    order in which methods were added / preferences declared is immaterial *)
+Theorem C18_insertion_order_irrelevant : forall (key : Type) (key_eqb : key -> key -> bool),
+  (forall a b, key_eqb a b = true <-> a = b) ->
+  forall isa (M1 M2 : list (key * N)) (Pf1 Pf2 : list (key * key)) d,
+  (forall e, In e M1 <-> In e M2) -> (forall e, In e Pf1 <-> In e Pf2) ->
+  forall k, NoDup (map fst M1) -> NoDup (map fst M2) ->
+  resolve_ref key key_eqb isa M1 Pf1 d k = resolve_ref key key_eqb isa M2 Pf2 d k.
+Proof. exact resolve_ref_sets. Qed.
+
 (** every step and every call of every history does what the specification's machine does --
     for every iteration order -- provided no call is made with a dispatch value that has a
     method of its own while another matching key dominates it ([s_guard], executable). *)
@@ -194,6 +204,7 @@ Print Assumptions C18_order_independent.
 Print Assumptions C18_search_is_reference.
 Print Assumptions C18_reference_meets_prescription.
 Print Assumptions C18_prescription_deterministic.
+Print Assumptions C18_insertion_order_irrelevant.
 Print Assumptions C18_choice_partial.
 Print Assumptions C18_choice_guard_nontrivial.
 Print Assumptions C18_choice_refuted.
